@@ -131,6 +131,9 @@ class Run:
     def write_replay(self, obname, payload):
         d = os.path.join(HERE, 'replays', self.prop)
         os.makedirs(d, exist_ok=True)
+        payload = dict(payload)
+        payload.setdefault('seed', self.seed)
+        payload.setdefault('tier', self.tier)
         path = os.path.join(d, sanitize(obname) + '.json')
         with open(path, 'w') as f:
             json.dump(payload, f, indent=1, default=str)
